@@ -823,6 +823,12 @@ func (x *FnExec) finish(args []Val) {
 			}
 		}
 	}
+	for k, pi := range con.PanicsIf {
+		p := envPre.EvalBool(pi.E)
+		for _, r := range x.rets {
+			x.oblige(fmt.Sprintf("panics_if%d.no_return(%s)", k+1, r.what), "panic", "normal return implies !( "+pi.Src+" )", r.st.reach, Not(p))
+		}
+	}
 	if len(x.rets) == 0 && len(x.panics) == 0 {
 		x.errorf("%s: no exit reached", x.fnName())
 	}
